@@ -672,11 +672,11 @@ class RootCwdStream(CmdStream):
 
 
 class TransferStream(CmdStream):
-    """One identifier whose transfer breaks while the body is read (an exception urllib does not wrap):
-    judged by the property clauses only (no partial file, nothing overwritten, failure in the exit status)."""
+    """One identifier whose transfer breaks while the body is read (an exception urllib does not wrap): no partial file,
+    nothing overwritten, the failure in the exit status, no traceback; compared with the model like any other failure."""
     name = "transfer"
-    rule = ("single identifier, the stub's response raises ConnectionResetError in read(): no file may appear and the exit "
-            "status must not be 0 (oracle only; the model has no such outcome); non-trivial = distinct (exit, created paths)")
+    rule = ("single identifier, the stub's response raises ConnectionResetError in read(): no file may appear, the exit "
+            "status is 1, no traceback (the model: a failed transfer); non-trivial = distinct (exit, created paths)")
     N = {"quick": 6, "thorough": 30}
 
     def gen(self, rng):
@@ -698,11 +698,12 @@ PROPERTY = Property(
     assumptions=[
         "paths are resolved lexically in the model: a LICENSES/ (or --output parent, or --source) reached through a symbolic "
         "link to a directory is not generated; links met at the destination itself (dangling, to a file) are",
-        "identifiers contain no path separator (an identifier such as 'a/b' names a nested path; none of the property's "
-        "identifier classes does)",
-        "the network oracle has two outcomes, text or URLError (status != 200, HTTPError, connection error); an exception "
-        "urllib does not wrap (reset while the body is read) aborts the command with a traceback and exit status 1 — the "
-        "'transfer' stream checks the property's clauses for it, the model does not describe it",
+        "the model's identifiers are file names the file system accepts: an 'identifier' with a path separator ('../evil', 'sub/x', an "
+        "absolute path) or one too long for a file name is generated for the real command only (it must be refused: no request, nothing "
+        "written, exit status 1 — fixes/download-identifier-is-a-file-name.diff), not for the model",
+        "the network oracle has two outcomes, text or failure (status != 200, HTTPError, connection error, and — since "
+        "fixes/download-transfer-breaks-while-reading.diff — a connection reset / short body / time-out while the body is read, "
+        "which download_license turns into the URLError the command reports); no traceback is accepted for any of them",
         "a --output below a regular file and a directory named <id>.txt inside --source (uncaught OSError subclasses) are not generated",
         "`--all`: the missing-licence set is an input of the model (ground truth of the generated tree); that lint computes it "
         "and reads the new files back is checked by running the real lint after the real download",
